@@ -208,6 +208,31 @@ func TestC14(t *testing.T) {
 		behBatch(t, c, c14NonTrivial, c14Check, nil)
 		col.Label("regress")
 	}
+	// hand-built: the configuration itself refers to the packages the generated code imports for its own needs
+	// (functions from strconv / fmt / os / errors / reflect, in every spelling): every package once, under one name
+	if ev.Mine(0) {
+		var c behCase
+		for v := 0; v < 3; v++ {
+			conf := cfg.Config{Meta: cfg.Meta{Pkg: sp("app"),
+				Functions: []cfg.KV{{K: "itoa", V: "strconv.Itoa"}, {K: "sprint", V: "fmt.Sprint"}, {K: "getenv", V: "os.Getenv"}, {K: "unwrap", V: "errors.Unwrap"}, {K: "typeof", V: "reflect.TypeOf"}, {K: "echo", V: "fx/lib.Echo"}}},
+				Params: []cfg.Param{{Name: "n", Val: cfg.Str(`%itoa(5)%`)}, {Name: "s", Val: cfg.Str(`%sprint("x", 1)%-%sprint(2)%`)}, {Name: "e", Val: cfg.Str(`%getenv("VERIF_UNSET")%`)},
+					{Name: "u", Val: cfg.Str(`%unwrap(nil)%`)}, {Name: "t", Val: cfg.Str(`%typeof(1)%`)}, {Name: "k", Val: cfg.Str(`%echo("k")%`)}},
+				Services: []cfg.Service{{Name: "a", Ctor: sp("fx/lib.NewObj"), Getter: sp("GetA"), Type: sp("*fx/lib.Obj"), Args: []cfg.Val{cfg.Str("%k%")}}}}
+			switch v {
+			case 1: // quoted paths
+				for i := range conf.Meta.Functions[:5] {
+					pkg, fn, _ := strings.Cut(conf.Meta.Functions[i].V, ".")
+					conf.Meta.Functions[i].V = `"` + pkg + `".` + fn
+				}
+			case 2: // through aliases, one of them named like another template import
+				conf.Meta.Imports = []cfg.KV{{K: "conv", V: "strconv"}, {K: "context", V: "fmt"}, {K: "sys", V: "os"}}
+				conf.Meta.Functions[0].V, conf.Meta.Functions[1].V, conf.Meta.Functions[2].V = "conv.Itoa", "context.Sprint", "sys.Getenv"
+			}
+			sc := fx.Script{Ops: []fx.Op{{Op: "methods"}, {Op: "get", ID: "a"}, {Op: "param", ID: "k"}}}
+			c.Members = append(c.Members, behMember{Files: []cfg.Config{conf}, Script: sc, Labels: []string{"hand-built:functions-from-the-template's-own-imports", fmt.Sprintf("spelling:%d", v)}})
+		}
+		behBatch(t, c, c14NonTrivial, c14Check, nil)
+	}
 	batch := pick(20, 32)
 	setRapidChecks(pick(5, 50))
 	opts := behaviouralOpts()
